@@ -4,7 +4,7 @@ Real code executed symbolically: server.Daemon.handleRequest (all dispatch branc
 _get_exposed_property_value, _set_exposed_property_value, is_private_attribute, _get_exposed_members /
 DaemonObject.get_metadata, _OnewayCallThread, protocol.recv_stub / SendingMessage / ReceivingMessage.
 The member name in the request is a symbolic string (any code points) or a non-string value."""
-from Pyro5 import protocol, errors, server, config
+from Pyro5 import protocol, errors, server, config, core
 from Pyro5.server import expose, oneway
 from pysym.runner import Spec
 from pysym.api import And, Or, Not, Implies, eq
@@ -318,8 +318,13 @@ def h_request(S, B):
         else:
             S.check("refusal-is-one-error-reply", len(replies) == 1)
             if len(replies) == 1:
-                S.check("refusal-reply-flags", And((replies[0].flags & protocol.FLAGS_EXCEPTION) != 0,
-                                                   replies[0].seq == seq, replies[0].type == protocol.MSG_RESULT))
+                is_error = (replies[0].flags & protocol.FLAGS_EXCEPTION) != 0
+                if kind == "batch" and not is_error:
+                    # a refused batch member may also be reported at its position inside the batch result
+                    items = rig.reply_value(replies[0])
+                    is_error = (replies[0].flags & protocol.FLAGS_BATCH) != 0 and isinstance(items, list) and len(items) == 1 \
+                        and isinstance(items[0], core._ExceptionWrapper) and isinstance(items[0].exception, AttributeError)
+                S.check("refusal-reply-flags", And(is_error, replies[0].seq == seq, replies[0].type == protocol.MSG_RESULT))
     else:
         S.cover("served:" + kind)
         if is_oneway:
